@@ -54,6 +54,9 @@ class Tables:
         self.C = [[peval(pder(self.L[r]), self.tau[j]) for j in range(degree)] for r in range(degree + 1)]
         self.D = [peval(self.L[r], Fr(1)) for r in range(degree + 1)]
         self.B = [pint01(self.L[r]) for r in range(degree + 1)]
+        # quadrature weights of the collocation method itself: integrals of the Lagrange polynomials through the
+        # collocation points only (exact for constants for every degree, also for a single Radau point)
+        self.b = [pint01(p) for p in lagrange_basis(self.tau)]
 
 
 def interval_data(tr, k, i):
@@ -126,6 +129,6 @@ def quadrature(tr, exprs):
                 tj = ts + h * c(tb.tau[j])
                 lf = leaf_at(tr, k, xr[j], tj, h, z=zr[j])
                 q = [ev(e, lf, dom) for e in exprs]
-                acc = [a + qq * h * c(tb.B[j + 1]) for a, qq in zip(acc, q)]
+                acc = [a + qq * h * c(tb.b[j]) for a, qq in zip(acc, q)]
             run.append(list(acc))
     return run
